@@ -8,7 +8,6 @@ use super::*;
 use crate::buffer::slice::{SliceInputSource, SliceOutputTarget};
 use crate::buffer::{InputSource, OutputTarget};
 use crate::decoder::Decoder;
-use crate::ErrorKind;
 
 macro_rules! check {
     ($c:expr, $m:literal) => {
@@ -101,9 +100,6 @@ fn k10_varint_i64() {
         let mut enc: Encoder<SliceOutputTarget> = Encoder::from(&mut buf[..]);
         let r = enc.encode_varint(v);
         ok = r.is_ok();
-        if let Err(e) = &r {
-            check!(matches!(e.kind(), ErrorKind::InvalidData(crate::InvalidDataErrorKind::OutOfRange { .. })), "the refusal is an OutOfRange error");
-        }
         core::mem::forget(r);
         written = 10 - enc.remaining();
     }
@@ -149,9 +145,6 @@ fn k10_varuint_u64() {
         let mut enc: Encoder<SliceOutputTarget> = Encoder::from(&mut buf[..]);
         let r = enc.encode_varuint(v);
         ok = r.is_ok();
-        if let Err(e) = &r {
-            check!(matches!(e.kind(), ErrorKind::InvalidData(crate::InvalidDataErrorKind::OutOfRange { .. })), "the refusal is an OutOfRange error");
-        }
         core::mem::forget(r);
         written = 10 - enc.remaining();
     }
